@@ -684,7 +684,235 @@ struct SynRunner {
   }
 };
 
+// ---------------------------------------------------------------------------------------------------------
+// intervals (Rational_Interval): three-address arithmetic z.op(x, y) whose RECEIVER may be the first operand, the second
+// or both (z.mul_assign(z, y), z.mul_assign(x, z), z.mul_assign(z, z)), the compound operators and neg/join/intersect.
+// The value is the exact text of the bounds (mpq) with their open / unbounded flags; all empty intervals print alike.
+struct ItvRunner {
+  typedef Rational_Interval I;
+  std::map<int, I*> pool;
+  ~ItvRunner() { for (std::map<int, I*>::iterator i = pool.begin(); i != pool.end(); ++i) delete i->second; }
+  I* get(int id) { std::map<int, I*>::iterator i = pool.find(id); if (i == pool.end()) throw CaseErr("unknown object"); return i->second; }
+  void put(int id, I* p) { std::map<int, I*>::iterator i = pool.find(id); if (i != pool.end()) { delete i->second; i->second = p; } else pool[id] = p; }
+  static void bound(I& x, bool upper, const std::string& kind, Toks& tk) {
+    mpz_class n = tk.nextz(), d = tk.nextz(); mpq_class q(n, d); q.canonicalize();
+    if (kind == "i") {
+      (upper ? x.upper() : x.lower()) = 0;
+      x.info().set_boundary_property(upper ? UPPER : LOWER, SPECIAL); x.info().set_boundary_property(upper ? UPPER : LOWER, OPEN);
+    } else {
+      (upper ? x.upper() : x.lower()) = q;
+      if (kind == "o") x.info().set_boundary_property(upper ? UPPER : LOWER, OPEN);
+    }
+  }
+  static std::string text(const I& x0) {
+    I x(x0); std::ostringstream o;
+    if (x.is_empty()) return "itv_empty";
+    bool li = x.lower_is_boundary_infinity(), ui = x.upper_is_boundary_infinity();
+    o << "itv_" << (li ? "i" : (x.lower_is_open() ? "o" : "c")) << "_"; if (li) o << 0; else { mpq_class q(x.lower()); q.canonicalize(); o << q; }
+    o << "_" << (ui ? "i" : (x.upper_is_open() ? "o" : "c")) << "_"; if (ui) o << 0; else { mpq_class q(x.upper()); q.canonicalize(); o << q; }
+    return o.str();
+  }
+  void states() {
+    for (std::map<int, I*>::iterator i = pool.begin(); i != pool.end(); ++i) {
+      const I& x = *i->second;
+      std::cout << "st " << i->first << " 1 " << (x.OK() ? 1 : 0) << " itv T " << text(x) << "\n";
+    }
+    std::cout << "endst\n";
+  }
+  void exec(Toks& tk, const std::string& cmd) {
+    if (cmd == "new") {
+      int id = tk.nextl(); (void) tk.nextl(); std::string lk = tk.next(); I* p = new I(); p->info().clear();
+      if (lk == "empty") p->assign(EMPTY);
+      else { bound(*p, false, lk, tk); std::string uk = tk.next(); bound(*p, true, uk, tk); }
+      put(id, p); std::cout << "res ok\n";
+    }
+    else if (cmd == "copy") { int id = tk.nextl(); const I& y = *get(tk.nextl()); put(id, new I(y)); std::cout << "res ok\n"; }
+    else if (cmd == "del") { int id = tk.nextl(); delete get(id); pool.erase(id); std::cout << "res ok\n"; }
+    else if (cmd == "obs") { int id = tk.nextl(); const I& x = *get(id); (void) tk.next(); (void) x.is_empty(); (void) x.is_singleton(); (void) x.OK(); std::cout << "res ok\n"; }
+    else if (cmd == "op") {
+      int id = tk.nextl(); I& z = *get(id); std::string op = tk.next(); I& x = *get(tk.nextl());
+      if (op == "assign") z = x;
+      else if (op == "swap") z.m_swap(x);
+      else if (op == "std_swap") { using std::swap; swap(z, x); }
+      else if (op == "neg_assign") z.neg_assign(x);
+      else if (op == "join_assign") z.join_assign(x);
+      else if (op == "intersect_assign") z.intersect_assign(x);
+      else if (op == "add_op") z += x;
+      else if (op == "sub_op") z -= x;
+      else if (op == "mul_op") z *= x;
+      else if (op == "div_op") z /= x;
+      else {
+        I& y = *get(tk.nextl());
+        if (op == "add_assign") z.add_assign(x, y);
+        else if (op == "sub_assign") z.sub_assign(x, y);
+        else if (op == "mul_assign") z.mul_assign(x, y);
+        else if (op == "div_assign") z.div_assign(x, y);
+        else if (op == "join3") z.join_assign(x, y);
+        else if (op == "intersect3") z.intersect_assign(x, y);
+        else throw CaseErr("unknown op " + op);
+      }
+      std::cout << "res ok\n";
+    }
+    else throw CaseErr("unknown command " + cmd);
+  }
+  int run(const std::vector<std::string>& lines) {
+    for (size_t k = 0; k < lines.size(); ++k) {
+      Toks tk(lines[k]); if (!tk.more()) continue;
+      std::string cmd = tk.next();
+      std::cout << "cmd " << lines[k] << std::endl;
+      if (cmd == "eq" || cmd == "eqres" || cmd == "eqres3" || cmd == "note") continue;
+      try {
+        try { exec(tk, cmd); }
+        catch (const CaseErr&) { throw; }
+        catch (const std::exception& e) { std::cout << "res exn " << exn_class(e) << "\n"; }
+        states();
+      } catch (const CaseErr& e) { std::cout << "HARNESS-ERROR " << e.what() << " in: " << lines[k] << std::endl; return 3; }
+      std::cout.flush();
+    }
+    return 0;
+  }
+};
+
+// ---------------------------------------------------------------------------------------------------------
+// solvers: PIP_Problem and MIP_Problem are values too.  The value of a problem is read from THE OBJECT ITSELF (a copy
+// would rebuild the internal links that are under test): for PIP the printed solution tree after solve(), plus whether
+// every node of the tree names this very problem as its owner; for MIP the status, optimum and optimizing point.
+struct SolverRunner {
+  std::string dom;
+  std::map<int, PIP_Problem*> pip; std::map<int, MIP_Problem*> mip;
+  ~SolverRunner() {
+    for (std::map<int, PIP_Problem*>::iterator i = pip.begin(); i != pip.end(); ++i) delete i->second;
+    for (std::map<int, MIP_Problem*>::iterator i = mip.begin(); i != mip.end(); ++i) delete i->second;
+  }
+  template <class M> typename M::mapped_type get(M& m, int id) { typename M::iterator i = m.find(id); if (i == m.end()) throw CaseErr("unknown object"); return i->second; }
+  template <class M> void put(M& m, int id, typename M::mapped_type p) { typename M::iterator i = m.find(id); if (i != m.end()) { delete i->second; i->second = p; } else m[id] = p; }
+  static bool owners_ok(const PIP_Tree_Node* nd, const PIP_Problem* owner) {
+    if (nd == 0) return true;
+    if (nd->get_owner() != owner) return false;
+    if (const PIP_Decision_Node* d = nd->as_decision()) return owners_ok(d->child_node(true), owner) && owners_ok(d->child_node(false), owner);
+    return true;
+  }
+  static std::string pip_text(PIP_Problem& x) {
+    std::ostringstream o;
+    PIP_Problem_Status st = x.solve();
+    o << "pip_dim" << x.space_dimension() << "_st" << int(st) << "_owners" << (owners_ok(x.solution(), &x) ? 1 : 0) << "_";
+    if (st == OPTIMIZED_PIP_PROBLEM) {
+      x.print_solution(o);
+      // the leaves are also queried one by one
+      std::vector<const PIP_Tree_Node*> todo(1, x.solution());
+      while (!todo.empty()) {
+        const PIP_Tree_Node* nd = todo.back(); todo.pop_back(); if (nd == 0) continue;
+        if (const PIP_Decision_Node* d = nd->as_decision()) { todo.push_back(d->child_node(false)); todo.push_back(d->child_node(true)); }
+        else if (const PIP_Solution_Node* sn = nd->as_solution()) {
+          using namespace IO_Operators;
+          for (dimension_type v = 0; v < x.space_dimension(); ++v)
+            if (x.parameter_space_dimensions().count(v) == 0) o << "|" << sn->parametric_values(Variable(v));
+        }
+      }
+    }
+    return squash(o.str());
+  }
+  static std::string mip_text(MIP_Problem& x) {
+    std::ostringstream o; using namespace IO_Operators;
+    MIP_Problem_Status st = x.solve();
+    o << "mip_dim" << x.space_dimension() << "_st" << int(st) << "_mode" << int(x.optimization_mode()) << "_";
+    if (st == OPTIMIZED_MIP_PROBLEM) { Coefficient n, d; x.optimal_value(n, d); o << n << "/" << d; }   // (the optimizing point is not unique: not part of the value)
+    o << "_ncons" << std::distance(x.constraints_begin(), x.constraints_end()) << "_obj_" << x.objective_function();
+    return squash(o.str());
+  }
+  void states() {
+    for (std::map<int, PIP_Problem*>::iterator i = pip.begin(); i != pip.end(); ++i) {
+      std::string t = pip_text(*i->second);
+      std::cout << "st " << i->first << " " << i->second->space_dimension() << " " << (i->second->OK() ? 1 : 0) << " pip T " << t << "\n";
+    }
+    for (std::map<int, MIP_Problem*>::iterator i = mip.begin(); i != mip.end(); ++i) {
+      std::string t = mip_text(*i->second);
+      std::cout << "st " << i->first << " " << i->second->space_dimension() << " " << (i->second->OK() ? 1 : 0) << " mip T " << t << "\n";
+    }
+    std::cout << "endst\n";
+  }
+  void exec_pip(Toks& tk, const std::string& cmd) {
+    if (cmd == "new") {
+      int id = tk.nextl(); unsigned dim = tk.nextl(); unsigned npar = tk.nextl();
+      PIP_Problem* p = new PIP_Problem(dim); Variables_Set ps; for (unsigned i = dim - npar; i < dim; ++i) ps.insert(Variable(i));
+      p->add_to_parameter_space_dimensions(ps);
+      Constraint_System cs = read_cons(tk, dim); for (Constraint_System::const_iterator i = cs.begin(); i != cs.end(); ++i) p->add_constraint(*i);
+      put(pip, id, p); std::cout << "res ok\n";
+    }
+    else if (cmd == "copy") { int id = tk.nextl(); const PIP_Problem& y = *get(pip, tk.nextl()); put(pip, id, new PIP_Problem(y)); std::cout << "res ok\n"; }
+    else if (cmd == "rebuild") {   // an independent problem with the same dimensions, parameters and constraints
+      int id = tk.nextl(); const PIP_Problem& y = *get(pip, tk.nextl());
+      PIP_Problem* p = new PIP_Problem(y.space_dimension(), y.constraints_begin(), y.constraints_end(), y.parameter_space_dimensions());
+      put(pip, id, p); std::cout << "res ok\n";
+    }
+    else if (cmd == "del") { int id = tk.nextl(); delete get(pip, id); pip.erase(id); std::cout << "res ok\n"; }
+    else if (cmd == "obs") { int id = tk.nextl(); (void) tk.next(); (void) get(pip, id)->is_satisfiable(); std::cout << "res ok\n"; }
+    else if (cmd == "op") {
+      int id = tk.nextl(); PIP_Problem& x = *get(pip, id); std::string op = tk.next();
+      if (op == "add_constraint") x.add_constraint(read_con(tk, x.space_dimension()));
+      else if (op == "solve") (void) x.solve();
+      else if (op == "clear") x.clear();
+      else if (op == "add_dims") { unsigned v = tk.nextl(), q = tk.nextl(); x.add_space_dimensions_and_embed(v, q); }
+      else { PIP_Problem& y = *get(pip, tk.nextl());
+        if (op == "assign") x = y; else if (op == "swap") x.m_swap(y); else if (op == "std_swap") { using std::swap; swap(x, y); }
+        else throw CaseErr("unknown op " + op); }
+      std::cout << "res ok\n";
+    }
+    else throw CaseErr("unknown command " + cmd);
+  }
+  void exec_mip(Toks& tk, const std::string& cmd) {
+    if (cmd == "new") {
+      int id = tk.nextl(); unsigned dim = tk.nextl(); unsigned nint = tk.nextl();
+      Constraint_System cs = read_cons(tk, dim); mpz_class b; Linear_Expression obj = read_expr(tk, dim, b);
+      MIP_Problem* p = new MIP_Problem(dim, cs, obj, tk.next() == "max" ? MAXIMIZATION : MINIMIZATION);
+      Variables_Set is; for (unsigned i = 0; i < nint; ++i) is.insert(Variable(i)); p->add_to_integer_space_dimensions(is);
+      put(mip, id, p); std::cout << "res ok\n";
+    }
+    else if (cmd == "copy") { int id = tk.nextl(); const MIP_Problem& y = *get(mip, tk.nextl()); put(mip, id, new MIP_Problem(y)); std::cout << "res ok\n"; }
+    else if (cmd == "rebuild") {
+      int id = tk.nextl(); const MIP_Problem& y = *get(mip, tk.nextl());
+      MIP_Problem* p = new MIP_Problem(y.space_dimension(), y.constraints_begin(), y.constraints_end(), y.objective_function(), y.optimization_mode());
+      p->add_to_integer_space_dimensions(y.integer_space_dimensions());
+      put(mip, id, p); std::cout << "res ok\n";
+    }
+    else if (cmd == "del") { int id = tk.nextl(); delete get(mip, id); mip.erase(id); std::cout << "res ok\n"; }
+    else if (cmd == "obs") { int id = tk.nextl(); (void) tk.next(); (void) get(mip, id)->is_satisfiable(); std::cout << "res ok\n"; }
+    else if (cmd == "op") {
+      int id = tk.nextl(); MIP_Problem& x = *get(mip, id); std::string op = tk.next();
+      if (op == "add_constraint") x.add_constraint(read_con(tk, x.space_dimension()));
+      else if (op == "solve") (void) x.solve();
+      else if (op == "clear") x.clear();
+      else if (op == "set_objective") { mpz_class b; x.set_objective_function(read_expr(tk, x.space_dimension(), b)); }
+      else if (op == "set_mode") x.set_optimization_mode(tk.next() == "max" ? MAXIMIZATION : MINIMIZATION);
+      else if (op == "add_dims") x.add_space_dimensions_and_embed(tk.nextl());
+      else { MIP_Problem& y = *get(mip, tk.nextl());
+        if (op == "assign") x = y; else if (op == "swap") x.m_swap(y); else if (op == "std_swap") { using std::swap; swap(x, y); }
+        else throw CaseErr("unknown op " + op); }
+      std::cout << "res ok\n";
+    }
+    else throw CaseErr("unknown command " + cmd);
+  }
+  int run(const std::vector<std::string>& lines) {
+    for (size_t k = 0; k < lines.size(); ++k) {
+      Toks tk(lines[k]); if (!tk.more()) continue;
+      std::string cmd = tk.next();
+      std::cout << "cmd " << lines[k] << std::endl;
+      if (cmd == "eq" || cmd == "eqres" || cmd == "eqres3" || cmd == "note") continue;
+      try {
+        try { if (dom == "PIP") exec_pip(tk, cmd); else exec_mip(tk, cmd); }
+        catch (const CaseErr&) { throw; }
+        catch (const std::exception& e) { std::cout << "res exn " << exn_class(e) << "\n"; }
+        states();
+      } catch (const CaseErr& e) { std::cout << "HARNESS-ERROR " << e.what() << " in: " << lines[k] << std::endl; return 3; }
+      std::cout.flush();
+    }
+    return 0;
+  }
+};
+
 static int run_case(const std::string& dom, const std::vector<std::string>& lines) {
+  if (dom == "PIP" || dom == "MIP") { SolverRunner r; r.dom = dom; return r.run(lines); }
+  if (dom == "ITV") { ItvRunner r; return r.run(lines); }
   if (dom == "C") { Runner<C_Polyhedron> r; return r.run(lines); }
   if (dom == "NNC") { Runner<NNC_Polyhedron> r; return r.run(lines); }
   if (dom == "Grid") { Runner<Grid> r; return r.run(lines); }
